@@ -52,7 +52,8 @@ def model_check(ctx):
     """Design level: the agreement clause with the recorded findings carved out, exhaustively."""
     res = []
     if ctx.thorough():
-        confs = [(2, 2, 5, 1, True, True), (2, 3, 6, 0, True, True), (3, 2, 5, 0, True, True), (2, 3, 5, 1, False, True)]
+        # 3 formed nodes with 2 operations did not finish (> 6 M distinct states after 50 minutes at MaxClock 4): one operation there
+        confs = [(2, 2, 5, 1, True, True), (2, 3, 6, 0, True, True), (3, 1, 4, 1, True, True), (2, 3, 5, 1, False, True)]
     else:
         confs = [(2, 2, 5, 0, True, True), (2, 2, 4, 0, False, True)]
     for c in confs:
